@@ -385,6 +385,13 @@ CAMPAIGNS['C09'].append(
          'sampled points per scenario; thorough: all)',
          mode='sched-sweep', nontrivial=nt_threads, chunk=3,
          post='tag_all:C09', sweep_max={'quick': 12, 'thorough': None}))
+CAMPAIGNS['C10'].append(
+    camp('c10-threads', 'threads', {'p_fail': 0.55, 'n_threads': (2, 3)},
+         'the build_file contract under concurrent use: 2-3 simulated '
+         'threads build (and fail to build) files in shared new directory '
+         'chains; failed outputs must leave no directories behind, in the '
+         'view at once and on disk at the end', nontrivial=nt_threads,
+         post='tag_all:C10', weight=0.7))
 CAMPAIGNS['C09'].append(
     camp('c09-duplicates', 'threads', {'p_same_key': 1.0},
          'the same build_file path / subbuild key issued from 2-4 threads '
@@ -634,10 +641,10 @@ def summarize(sc):
     }
 
 
-def run_any(sc):
+def run_any(sc, prop=None):
     mode = sc.get('mode', 'plain')
     if mode in ('plain', 'fault'):
-        return run_scenario(sc)
+        return run_scenario(sc, {'prop': prop} if prop else None)
     raise ValueError('unknown scenario mode %r' % (mode,))
 
 
@@ -698,7 +705,7 @@ def run_case(camp, seed, tier='quick', prop=None):
            'sched_digests': []}
     mode = camp.get('mode', 'plain')
     if mode == 'plain':
-        res = run_scenario(sc)
+        res = run_scenario(sc, {'prop': prop})
         _account(out, sc, res, camp)
     elif mode in ('crash-sweep', 'oserror-sweep'):
         builds = [i for i, s in enumerate(sc['steps']) if s['op'] == 'build']
@@ -731,14 +738,14 @@ def run_case(camp, seed, tier='quick', prop=None):
         import copy
         idx = [i for i, s in enumerate(sc['steps']) if s.get('sched')]
         if not idx:
-            res = run_scenario(sc)
+            res = run_scenario(sc, {'prop': prop})
             _account(out, sc, res, camp)
         else:
             t = idx[0]
             probe = copy.deepcopy(sc)
             probe['steps'][t]['sched'] = {'policy': 'sweep', 'thread': -1,
                                           'at': -1}
-            res = run_scenario(probe)
+            res = run_scenario(probe, {'prop': prop})
             _account(out, probe, res, camp)
             ys = (res.get('thread_yields') or [[]])[0]
             points = [(a, i) for a in range(1, len(ys))
@@ -753,7 +760,7 @@ def run_case(camp, seed, tier='quick', prop=None):
                     c = copy.deepcopy(sc)
                     c['steps'][t]['sched'] = {'policy': 'sweep', 'thread': a,
                                               'at': i}
-                    r2 = run_scenario(c)
+                    r2 = run_scenario(c, {'prop': prop})
                     _account(out, c, r2, camp)
                     if r2['verdict'] != 'ok':
                         break
